@@ -10,7 +10,7 @@ KERNEL = [os.path.join(VERIF, "sim")]
 
 
 def build(flavour="plain"):
-    h = file_hash([os.path.join(REPO, "sbepp/src"), os.path.join(REPO, "sbeppc/src"), SRC] + KERNEL, flavour)
+    h = file_hash([os.path.join(REPO, "sbepp/src"), os.path.join(REPO, "sbeppc/src"), SRC, os.path.join(VERIF, "fsim", "corpus")] + KERNEL, flavour)
     san = ["-fsanitize=address,undefined", "-fno-sanitize-recover=undefined", "-fno-omit-frame-pointer"] if flavour == "asan" else []
     opt = ["-O1", "-g"]
 
@@ -31,6 +31,9 @@ def build(flavour="plain"):
 
     return Builder().build("fsim-" + flavour, h, jobs)
 
+
+# extra corpus of valid but unusual schemas (the wire engine's corner schemas, a <ref>-typed dimension)
+os.environ.setdefault("FSIM_EXTRA_CORPUS", os.path.join(VERIF, "fsim", "corpus"))
 
 REAL = ["sbeppc: main.cpp and every header it includes, compiled from /repo's working tree with -Dmain=sbeppc_main and asserts enabled", "libstdc++ fstream / std::filesystem", "pugixml", "fmt"]
 STUB = ["file-system namespace and the outcome of fopen64/fclose/read/write/writev/lseek64/mkdir/stat/lstat (SimFS over memfd)", "stored bytes of the input files (storage faults)", "argv", "heap layout before a run (seeded fragmentation)", "exit() and __assert_fail (interposed to classify outcomes)"]
